@@ -60,6 +60,7 @@ type State struct {
 	threads   []*threadRec
 	wgAdded   map[string]Term
 	loopHeap  map[*ssa.BasicBlock]*Heap
+	lp        *lpState // linearizable mode: the candidate linearization point of this path
 	loopVariant map[*ssa.BasicBlock]Term // value of the loop's decreases expression at the head of the current iteration
 	closOrd   int
 	dead      bool
@@ -90,6 +91,7 @@ func (s *State) clone() *State {
 	for k, v := range s.wgAdded {
 		n.wgAdded[k] = v
 	}
+	n.lp = s.lp
 	n.loopVariant = map[*ssa.BasicBlock]Term{}
 	for k, v := range s.loopVariant {
 		n.loopVariant[k] = v
